@@ -14,7 +14,7 @@ import props as P
 
 HARNESS = os.path.join(VERIF, 'harness')
 BUILD = os.environ.get('VERIF_BUILD_DIR') or os.path.join(VERIF, 'build')
-REPO = '/repo'
+REPO = os.environ.get('VERIF_REPO') or '/repo'      # VERIF_REPO: run against a copy of the repository (background runs only)
 
 ENV = dict(os.environ, CARGO_NET_OFFLINE='true', CARGO_TERM_COLOR='never')
 
@@ -103,6 +103,30 @@ def classify_check(c):
     return 'code'
 
 
+def norm_fn(fn):
+    """function name without concrete generic arguments (one entry per function, not per instantiation)"""
+    out, i = '', 0
+    while i < len(fn):
+        ch = fn[i]
+        if ch == '<' and i > 0 and (fn[i - 1].isalnum() or fn[i - 1] == '_' or fn[i - 2:i] == '::'):
+            d, j = 0, i
+            while j < len(fn):
+                if fn[j] == '<':
+                    d += 1
+                elif fn[j] == '>' and fn[j - 1] != '-':
+                    d -= 1
+                    if d == 0:
+                        break
+                j += 1
+            i = j + 1
+            if out.endswith('::'):
+                out = out[:-2]
+            continue
+        out += ch
+        i += 1
+    return out[:110]
+
+
 def analyse_kani(data):
     """per harness: status, failed obligations, failed code checks, covers, stats"""
     res = {}
@@ -123,7 +147,7 @@ def analyse_kani(data):
             nchecks += 1
             fn = c.get('function', '')
             if fn.startswith('circular_buffer::') or '<circular_buffer::' in fn or ' as circular_buffer' in fn:
-                funcs.add(re.sub(r'::<[^>]*>', '', fn)[:120])
+                funcs.add(norm_fn(fn))
             if st in OK_STATUS:
                 continue
             item = dict(desc=c.get('description', '').strip('"'), function=fn,
@@ -219,6 +243,15 @@ def run_e1(prop, tier, config, spec, parts, broken):
     pats = ['q_%s__' % prop.lower()] + (['t_%s__' % prop.lower()] if tier == 'thorough' else [])
     insts = [i for i in scenarios.instances() if i['prop'] == prop and config in i['scen'].configs
              and (i['tier'] == 'q' or tier == 'thorough')]
+    seed = int(os.environ.get('VERIF_SEED', '0') or 0)
+    if tier == 'quick' and seed:
+        # the core quick set is fixed; a non-zero seed adds two instances of the thorough set, chosen by the seed
+        extra = [i for i in scenarios.instances() if i['prop'] == prop and config in i['scen'].configs and i['tier'] == 't']
+        for k in range(min(2, len(extra))):
+            e = extra[(seed * 7919 + k * 104729) % len(extra)]
+            if e not in insts:
+                insts.append(e)
+                pats.append(e['name'])
     if not insts:
         return None
     log('-- E1/Kani config=%s: %d harnesses' % (config, len(insts)))
@@ -288,6 +321,12 @@ def check(prop, tier):
     if rc != 0:
         log(out)
         return finish(prop, tier, seed, t0, broken=['generator failed'], parts=[])
+    if REPO != '/repo':
+        ct = os.path.join(HARNESS, 'Cargo.toml')
+        txt = open(ct).read()
+        new = re.sub(r'circular-buffer = \{ path = "[^"]*"', 'circular-buffer = { path = "%s"' % REPO, txt)
+        if new != txt:
+            open(ct, 'w').write(new)
     parts = []
     violations, broken, undecided, notes = [], [], [], []
     known, _fixed = load_known()
